@@ -171,6 +171,11 @@ func (r *rec) drive(rk *heur.MoveRanker, hs *stack.Stack[heur.StackMove], corpus
 func (r *rec) pick(corpus []string) {
 	for !r.full() {
 		fen, b := r.position(corpus)
+		if r.rng.Intn(6) == 0 {
+			// nothing but captures (mostly losing ones) on offer: what is deferred behind the quiet moves is all there is
+			fen = gen.NoQuiet(r.rng)
+			b, _ = board.FromFEN(fen)
+		}
 		r.t++
 		rk := heur.NewMoveRanker()
 		hs := stack.New[heur.StackMove]()
@@ -193,6 +198,10 @@ func (r *rec) pick(corpus []string) {
 		cands := append([]int{0}, proj.Generated(b, r.ms)...)
 		for i := 0; i < 6; i++ {
 			cands = append(cands, r.rng.Intn(1<<15))
+		}
+		if p.Cr != 0 {
+			// the four castling encodings, whether or not castling is possible right now
+			cands = append(cands, 4<<6|6, 4<<6|2, 60<<6|62, 60<<6|58)
 		}
 		g := proj.Generated(b, r.ms)
 		if len(g) > 0 {
@@ -468,6 +477,10 @@ func (r *rec) eval(corpus []string) {
 		var b *board.Board
 		if r.rng.Intn(6) == 0 {
 			fen = materialFens[r.rng.Intn(len(materialFens))]
+			b, _ = board.FromFEN(fen)
+		} else if r.rng.Intn(4) == 0 {
+			// the material classes evaluation functions have special rules for
+			fen = gen.SparseEndgame(r.rng)
 			b, _ = board.FromFEN(fen)
 		} else if r.rng.Intn(5) == 0 {
 			// KNB v K in random placements, both colours
